@@ -46,6 +46,10 @@ def _cases(ctx):
         db, roots = W.random_case(ctx.rng, max_inst=ctx.budget(60, 200), max_roots=ctx.budget(5, 6))
         v, lvl = protos[i % len(protos)] if i % 3 == 0 else protos[0]
         yield db, roots, v, lvl, "random"
+    # big tables: the walk's bookkeeping (`yielded`, the unfinished set) after thousands of rounds
+    for cols, rows in [(2, 5100 + ctx.rng.randrange(200))] + ([] if ctx.quick else [(3, 7000 + ctx.rng.randrange(500)), (2, 16500)]):
+        db, roots = W.large_case(cols, rows)
+        yield db, roots, "v2c", "noauth", "large"
 
 
 def run(ctx):
@@ -66,17 +70,21 @@ def run(ctx):
         res.count("ending:" + ("endOfMibView" if not db or max(tuple(o) for o, _ in db) < max(tuple(r) + (10**9,) for r in roots) else "step-out"))
         bad = W.oracle_exact(db, roots, walk)
         case = {"db": db, "roots": roots, "version": version, "level": level, "api": spec.get("api", "multiwalk")}
+        shown = walk
+        if origin == "large":
+            case = {"large": [len(roots), len(db) // len(roots)], "roots": roots, "version": version, "level": level, "api": "multiwalk"}
+            shown = W.summary(walk)
         if bad and walk["outcome"] == ["error", ["authError"]] and agent.raw_log and auth_len127(agent.raw_log[-1][1]):
             # authentic response rejected: recorded finding of C10 (127-octet level), same input signature
             res.count("hit:C10-len127")
             res.violate("e2e-walk", case, "walk completes", walk, bad, {"kind": "auth-reject-len127"})
             continue
         if bad:
-            res.violate("e2e-walk", case, "exactly the instances strictly below the roots", walk, bad, _signature(db, roots, walk, bad))
+            res.violate("e2e-walk", case, "exactly the instances strictly below the roots", shown, bad, _signature(db, roots, walk, bad))
         # independence of the listing order (all permutations for <= 3 roots, one reversal beyond)
         if len(roots) > 1 and (origin != "small-scope" or perm_checked % 7 == 0):
             ys = sorted(tuple(e[1][0]) for e in walk["events"] if e[0] == "yield" and tuple(e[1][0]) not in map(tuple, roots))
-            perms = list(itertools.permutations(roots)) if len(roots) <= 3 else [list(reversed(roots))]
+            perms = list(itertools.permutations(roots)) if len(roots) <= 3 and origin != "large" else [roots, list(reversed(roots))]
             for p in perms[1:]:
                 w2, _ = W.impl_walk({"db": db}, [list(r) for r in p], "getnext", version=version, level=level, budget=len(db) + 8)
                 ys2 = sorted(tuple(e[1][0]) for e in w2["events"] if e[0] == "yield" and tuple(e[1][0]) not in map(tuple, roots))
@@ -85,13 +93,17 @@ def run(ctx):
                     res.violate(
                         "e2e-walk-order",
                         {**case, "permuted": [list(r) for r in p]},
-                        [list(y) for y in ys],
-                        [list(y) for y in ys2],
+                        [list(y) for y in ys] if origin != "large" else len(ys),
+                        [list(y) for y in ys2] if origin != "large" else len(ys2),
                         "the outcome depends on the order in which the roots were listed",
                         {"kind": "walk-order-dependent"},
                     )
                     break
         perm_checked += 1
+        if origin == "large" and (ctx.quick or len(db) > 12000):
+            res.evaluations += 1  # oracle only: the list-based model needs ~15 s per 10^4 instances
+            res.count("large:oracle-only")
+            continue
         reqs.append(W.model_request({"db": db}, roots, "getnext", fuel=len(db) + 8))
         impls.append((case, walk, nb > 0 or len(db) > 0))
     if ctx.driver_ok:
@@ -125,12 +137,14 @@ def search(ctx, res):
 def replay(ctx, payload):
     case = payload["case"]
     roots = case.get("permuted", case["roots"])
+    if "large" in case:
+        case["db"] = W.large_case(*case["large"])[0]
     spec = {"db": case["db"]}
     if case.get("api") == "walk":
         spec["api"] = "walk"
     walk, _ = W.impl_walk(spec, roots, "getnext", version=case.get("version", "v2c"), level=case.get("level", "noauth"), budget=len(case["db"]) + 8)
     bad = W.oracle_exact(case["db"], roots, walk)
     print("roots", roots)
-    print("trace", walk)
+    print("trace", W.summary(walk) if "large" in case else walk)
     print("oracle:", bad or "ok")
     return 1 if bad else 0
